@@ -33,6 +33,14 @@ theorem fresh_refinement_current (ops : List Op) (hpub : ∀ op ∈ ops, op.isPu
     remove_detaches_all_nodes override_detaches_all_nodes no_query_damages_cache
     ops hpub hok i inst hi).1 q
 
+/-- CURRENT CODE, with the non-empty observation (slots read + elements) of EVERY query, also the memo-less ones -/
+theorem fresh_refinement_observation_current (ops : List Op) (hpub : ∀ op ∈ ops, op.isPublic)
+    (hok : NoRaise config World.empty ops)
+    (i : Nat) (inst : Inst) (hi : (run config World.empty ops).insts[i]? = some inst) (q : String) :
+    observation config (run config World.empty ops) i q = observation config (build inst.elts) 0 q :=
+  (fresh_refinement_observation config memoised_subset_cleared add_invalidates add_multi_invalidates remove_invalidates
+    override_detaches remove_detaches_all_nodes override_detaches_all_nodes no_query_damages_cache ops hpub hok i inst hi q).1
+
 /-- CURRENT CODE: the generated configuration meets the side conditions of `query_transparent` for every slot -/
 theorem cfg_ok_current : CfgOK config (fun _ => true) := by
   refine ⟨?_, fun _ _ _ _ => rfl, by rw [no_query_damages_cache]; intro p hp; cases hp⟩
